@@ -211,8 +211,8 @@ func (u *Universe) plans(st *SpecTables) map[string]*PropPlan {
 	}
 	encUnits := cat(objFuncs("v3m", "Encode", "String"), objFuncs("v2m", "Encode", "String"))
 	P["C10"] = &PropPlan{ID: "C10", Title: "encoding is canonical; decode-encode-decode is the identity",
-		Units: cat(decV3, decV2, encUnits, rtLemmas("v3", st.V3), rtLemmas("v2", st.V2)), Assumptions: a1,
-		Meta: []string{"Encode/String postconditions give the exact canonical text for every object whose names are recorded (v3: prefix, specification order, X spelled out for every temporal/environmental metric of the level; v2: exactly the recorded groups); on accepted objects (Decode postconditions: all base names recorded, fields valid) Encode succeeds. v2: the encoding is byte-identical to the input (Decode [C08]: vector == canonical text == Encode text). Round trip: the canonical text of any valid field assignment decodes to exactly those fields (scenarios, both versions), hence Decode(Encode(x)) has the fields of x and therefore the same scores and the same encoding."},
+		Units: cat(decV3, decV2, encUnits, queryObj("v3m"), queryObj("v2m"), rtLemmas("v3", st.V3), rtLemmas("v2", st.V2)), Assumptions: a1,
+		Meta: []string{"Encode/String postconditions give the exact canonical text for every object whose names are recorded (v3: prefix, specification order, X spelled out for every temporal/environmental metric of the level; v2: exactly the recorded groups); on accepted objects (Decode postconditions: all base names recorded, fields valid) Encode succeeds. v2: the encoding is byte-identical to the input (Decode [C08]: vector == canonical text == Encode text). Round trip: the canonical text of any valid field assignment decodes to exactly those fields (scenarios, both versions), hence Decode(Encode(x)) has the fields of x and therefore the same scores and the same encoding. The encoding of a decoded object stays the canonical one whatever is asked of the object in between: every query carries 'modifies nothing' (frame obligations of Score, Severity, GetError, Encode, String, accessors)."},
 	}
 	P["C11"] = &PropPlan{ID: "C11", Title: "every rejection reports one sentinel naming a defect the input really has",
 		Units: cat(decV3, decV2), Assumptions: a1,
